@@ -391,6 +391,56 @@ impl<'a, const D: usize> crate::Partition<(&'a [PointND<D>], &'a [f64])> for Mul
     }
 }
 
+/// Read-only access to private items for the verification harness.
+#[cfg(coupe_verif)]
+pub mod verif {
+    pub fn compute_split_positions(
+        weights: &[f64],
+        permutation: &[usize],
+        modifiers: &[f64],
+    ) -> Vec<usize> {
+        super::compute_split_positions(weights, permutation, modifiers)
+    }
+
+    /// The partition scheme printed as `(num_splits [modifier bits…] child…)`,
+    /// `-` standing for `next: None`.
+    pub fn partition_scheme(num_parts: usize, max_iter: usize) -> String {
+        fn show(s: &super::PartitionScheme, out: &mut String) {
+            use std::fmt::Write as _;
+            write!(out, "({} [", s.num_splits).unwrap();
+            for (i, m) in s.modifiers.iter().enumerate() {
+                if i > 0 {
+                    out.push(' ');
+                }
+                write!(out, "{:x}", m.to_bits()).unwrap();
+            }
+            out.push(']');
+            match &s.next {
+                None => out.push_str(" -"),
+                Some(next) => {
+                    for n in next {
+                        out.push(' ');
+                        show(n, out);
+                    }
+                }
+            }
+            out.push(')');
+        }
+        let mut out = String::new();
+        show(&super::partition_scheme(num_parts, max_iter), &mut out);
+        out
+    }
+
+    /// Lengths of the slices returned by `split_at_mut_many`.
+    pub fn split_at_mut_many_lens(len: usize, positions: &[usize]) -> Vec<usize> {
+        let mut v = vec![0u8; len];
+        super::split_at_mut_many(&mut v, positions)
+            .iter()
+            .map(|s| s.len())
+            .collect()
+    }
+}
+
 #[cfg(test)]
 mod tests {
     use super::*;
